@@ -31,7 +31,15 @@ def run_history(args):
         post = cc.snap(c)
         hist.append(call)
         cmd = cc.model_cmd(call)
-        steps.append((cc.fmt(pre), cmd, f'{out} | {cc.fmt(post)}', call[0]))
+        iv = None
+        if 'views' in want:
+            # the implementation's incrementally maintained views, to be compared with the views the
+            # Coq model (coq/circuit/CViews.v) derives from the implementation's own post-state grid
+            try:
+                iv = cc.impl_views(c)
+            except Exception as e:   # an accessor failed: the views are corrupt (check_views reports it too)
+                iv = ('raised', type(e).__name__ + ':' + str(e)[:120])
+        steps.append((cc.fmt(pre), cmd, f'{out} | {cc.fmt(post)}', call[0], cc.fmt(post), iv))
         ok = out.kind != 'E'
         if out.kind == 'E' and out.val.startswith('Internal'):
             findings.append(dict(kind='internal_error', step=step, call=call, detail=out.val, pre=pre))
@@ -92,16 +100,21 @@ def run_many(seeds, max_len, want, procs=14):
 
 
 def model_script(results):
-    """One `set <pre>` + command pair per modelled step; returns (lines, index) where index maps
-    each command line to (result idx, step idx)."""
+    """One `set <pre>` + command pair per modelled step, and one `set <post>` + `views` pair per step
+    whose implementation views were recorded; returns (lines, index) where index holds, per pair,
+    (what, result idx, step idx) with what in {'step', 'views'}; the answer of pair j is line 2*j+1."""
     lines, index = [], []
     for ri, r in enumerate(results):
-        for si, (pre, cmd, impl, kind) in enumerate(r['steps']):
-            if cmd is None:
-                continue
-            lines.append('set ' + pre)
-            lines.append(cmd)
-            index.append((ri, si))
+        for si, st in enumerate(r['steps']):
+            pre, cmd, impl, kind, post, iv = st
+            if cmd is not None:
+                lines.append('set ' + pre)
+                lines.append(cmd)
+                index.append(('step', ri, si))
+            if iv is not None:
+                lines.append('set ' + post)
+                lines.append('views')
+                index.append(('views', ri, si))
     return lines, index
 
 
